@@ -17,6 +17,7 @@ PredSet(name) ==
       [] name = "p2one" -> {P(<<1, 1>>, 1)}
       [] name = "p1w" -> {P(<<1>>, 0), P(<<1>>, 1), P(<<-1>>, -1)}
       [] name = "p1v" -> {P(<<1>>, 0), P(<<1>>, 1), P(<<1>>, 2), P(<<-1>>, -3)}
+      [] name = "p1f" -> {P(<<1>>, 0), P(<<-1>>, -1), P(<<0>>, -1)}
       [] name = "p1a" -> {P(<<1>>, 0), P(<<1>>, 1), P(<<-1>>, 0)}
       [] name = "p1s" -> {P(<<1>>, 0), P(<<-1>>, -1)}
       [] name = "pp2s" -> {Aff(<<<<1, 0>>, <<0, 1>>>>, <<0, 1>>), P(<<1, 1>>, 1)}
